@@ -157,6 +157,20 @@ def t10_idx(run, fx, floors):
                             run.ok(rule, "%s: index -> total accessor %s" % (b.path, (c.get("path") or "").split("::")[-1]))
                         else:
                             run.fail(rule, "index-use:%s:%s" % (b.root, (c.get("path") or "?")), "the member index is used by %s, which is neither a container function nor a total accessor" % (c.get("rpath") or c.get("path")), b.loc(t))
+        # a member function reached from here is always selected by the caller's own index: never by a constant or another value
+        for bi, t in b.calls():
+            c = t["callee"]
+            dp = c.get("rdp") or c.get("dp")
+            if dp not in allowed_dp or dp == b.dp:
+                continue
+            cb = fx.by_dp[dp]
+            for i, a in enumerate(t["args"]):
+                if cb.local_name(i + 1) != "index":
+                    continue
+                if a["k"] in ("copy", "move") and a["p"]["l"] in cs:
+                    continue
+                run.fail(rule, "index-other:%s->%s" % (b.root, cb.root), "%s selects a member of the collection with %s instead of its own `index`: the result mixes two members" % (
+                    b.path, ("the constant %s" % a.get("val")) if a["k"] == "const" else "another value"), b.loc(t))
         if uses == 0:
             # a container function that ignores its index is only acceptable for non-collections; FontData::table_provider's WOFF arm and
             # OpenTypeData::Single do so inside functions that also use it, so a function with no use at all is a lost check
